@@ -1,0 +1,16 @@
+// SPDX-FileCopyrightText: The go-mail Authors
+//
+// SPDX-License-Identifier: MIT
+
+//go:build verif
+
+package mail
+
+// VerifSetFallbackPort sets the port the Client falls back to when the dial to its primary port
+// fails. It exists for the verification harness only (build tag "verif"): the public API only
+// ever sets the fallback port to the well-known ports 25 and 587, which a harness cannot listen on.
+func (c *Client) VerifSetFallbackPort(port int) {
+	c.mutex.Lock()
+	defer c.mutex.Unlock()
+	c.fallbackPort = port
+}
